@@ -150,7 +150,7 @@ func TestC02_Main(t *testing.T) {
 	haveBins(t, "stgutg_verif")
 	r := ev.New(t, "C02", "TestC02_Main")
 	n := ev.N(48, 1500)
-	maxR := 6
+	maxR := 5
 	if ev.Tier() == "thorough" {
 		maxR = 10
 	}
@@ -249,11 +249,5 @@ func ipHex(s string) string {
 func TestC02_Proc(t *testing.T) {
 	haveBins(t, "procdriver")
 	r := ev.New(t, "C02", "TestC02_Proc")
-	ev.Run(t, r, genC02Proc, func(c *peCase) ev.Verdict {
-		res := evalC02Proc(c)
-		if res.Retry {
-			res = evalC02Proc(c)
-		}
-		return res.V
-	})
+	ev.Run(t, r, genC02Proc, retryOnce(evalC02Proc))
 }
